@@ -1165,6 +1165,11 @@ func (gen *Generator) GenerateMultiDef(args []Sexp) error {
 			unquotedSymbol, isQuo := isQuotedSymbol(sym)
 			if isQuo {
 				syms[i] = unquotedSymbol.(*SexpSymbol)
+			} else {
+				// a list that is not a quoted symbol used to leave a
+				// nil target behind, and binding it crashed with a nil
+				// pointer dereference, e.g. (range (fn [x] x) v [1 2]).
+				return fmt.Errorf("All mdef targets must be symbols, but %d-th was not: '%s'", i+1, sym.SexpString(nil))
 			}
 		default:
 			return fmt.Errorf("All mdef targets must be symbols, but %d-th was not, instead of type %T: '%s'", i+1, sym, sym.SexpString(nil))
